@@ -1,10 +1,88 @@
 import PewDriver.Util
+import PewModel.Export
 open Lean
 namespace PewDriver.C16
-open PewDriver
+open PewDriver Pew.Export
 
-def handle (op : String) (_req : Json) : R Json := do
+/-- values are bit tokens (integers); the opaque printer/parser pair of the model is
+instantiated with the decimal string of the token -/
+def fmtTok (t : Int) : Str := (toString t).toList
+def parseTok (s : Str) : Option Int := (String.ofList s).toInt?
+
+def chunk {α} (c : Nat) : Nat → List α → List (List α)
+  | 0, _ => []
+  | r + 1, l => l.take c :: chunk c r (l.drop c)
+
+def jLoaded : Option (List Nat × List Int) → Json
+  | none => jObj [("raises", jBool true)]
+  | some (sh, d) => jObj [("shape", jList jNat sh), ("data", jList jInt d)]
+
+def getImg (req : Json) : R (Nat × Nat × List (List Int)) := do
+  let r ← getNat req "rows"
+  let c ← getNat req "cols"
+  let data ← getList asInt req "data"
+  if data.length ≠ r * c then throw "data/shape mismatch"
+  if r = 0 ∨ c = 0 then throw "empty image"
+  pure (r, c, chunk c r data)
+
+def asChar (j : Json) : R Char := do
+  let s ← asStr j
+  match s.toList with
+  | [c] => pure c
+  | _ => throw s!"expected one character, got {s}"
+
+def jWord : Word Int → Json
+  | .len n => jNat n
+  | .val t => jInt t
+
+def handle (op : String) (req : Json) : R Json := do
   match op with
+  | "c16.text" =>
+    let (r, c, img) ← getImg req
+    let header ← fld req "header" >>= asOpt asStr
+    let file := saveText fmtTok (header.map String.toList) img
+    pure (jObj [("model", jLoaded (loadText parseTok 2 file)),
+                ("spec", jLoaded (some ([r, c], img.flatten)))])
+  | "c16.delims" =>
+    let (r, c, img) ← getImg req
+    let seps ← getList (asList asChar) req "seps"
+    if seps.length ≠ r then throw "one separator list per row"
+    if seps.any (fun ss => ss.length + 1 ≠ c) then throw "separators/columns mismatch"
+    if seps.any (fun ss => ss.any (fun ch => ch ≠ ',' ∧ ch ≠ ';' ∧ ch ≠ '\t')) then throw "bad separator"
+    let file := saveWith fmtTok seps img
+    pure (jObj [("model", jLoaded (loadText parseTok 2 file)),
+                ("spec", jLoaded (some ([r, c], img.flatten)))])
+  | "c16.vtk" =>
+    let n0 ← getNat req "n0"
+    let n1 ← getNat req "n1"
+    let n2 ← getNat req "n2"
+    let fields ← getList (fun f => do
+      let nm ← getStr f "name"
+      let data ← getList asInt f "data"
+      if data.length ≠ n0 * n1 * n2 then throw "data/shape mismatch"
+      let arr := data.toArray
+      let v : Vol Int := { n0 := n0, n1 := n1, n2 := n2, get := fun i j k => arr.getD ((i * n1 + j) * n2 + k) 0 }
+      pure (nm, v)) req "fields"
+    let mblocks := fields.map (fun f => vtkBlock f.2)
+    let sblocks := fields.map (fun f => vtkBlockSpec f.2)
+    let moffs := offsetsFrom 0 (mblocks.map List.length)
+    let soffs := offsetsFrom 0 (fields.map (fun _ => n1 * n0 * n2))
+    let arrays := fun (names : List String) (offs : List Nat) (blocks : List (List Int)) =>
+      jList (fun (x : String × Nat × List Int) =>
+        jObj [("name", jStr x.1), ("offset", jNat x.2.1), ("nbytes", jNat (x.2.2.length * 8)),
+              ("values", jList jInt x.2.2)]) (List.zip names (List.zip offs blocks))
+    let shaped := match fields with
+      | [] => [n1, n0, n2]
+      | f :: _ => let w := swap01 (flip0 f.2); [w.n0, w.n1, w.n2]
+    let mnames := fields.map (fun f => String.ofList (unescape (escapeMech f.1.toList)))
+    let snames := fields.map (fun f => f.1)
+    pure (jObj [
+      ("model", jObj [("extent", jList jNat shaped), ("arrays", arrays mnames moffs mblocks),
+                      ("appended", jList jWord (appended mblocks)),
+                      ("escaped", jList jStr (fields.map fun f => String.ofList (escapeMech f.1.toList)))]),
+      ("spec", jObj [("extent", jList jNat [n1, n0, n2]), ("arrays", arrays snames soffs sblocks),
+                     ("appended", jList jWord (appended sblocks)),
+                     ("escaped", jList jStr (fields.map fun f => String.ofList (escapeSpec f.1.toList)))])])
   | _ => throw s!"unknown op {op}"
 
 end PewDriver.C16
